@@ -17,8 +17,7 @@ EXPLANATION = (
     "to 64. R08.4 sibling rule: a function that looks days up in a March-based cumulative table must carry the year for months < 3 "
     "(contradiction between table and year arithmetic otherwise). R08.5 sibling pattern over all month-wrap sites of the calendar code: "
     "wherever a month counter wraps (reset to 1/12, +/-= 12, %= 12) the same block adjusts the year.")
-NOT_DECIDED = ("correctness of echs_instant_fixup/add/diff and of the epoch conversions as functions of their inputs (value-level); "
-               "the behaviour itself")
+NOT_DECIDED = ("echs_instant_fixup(); the arithmetic and the conversions as functions of ALL their inputs (decided for finite, chosen sets of arguments by value-fixed walks: R08.9-R08.13); the behaviour itself")
 TRUSTED = ["clang 14 parser/CFG builder", "echse-facts extractor", "python rule engines in /verif/sa", "python datetime (oracle for day counts)"]
 LEVEL_TEXT = ("Static verdict on necessary structural clauses of C08: 64-bit evaluation of millisecond quantities, mutual agreement of all "
               "calendar tables/macros/epoch constants with the Gregorian month lengths, sentinel/bit-field agreement, and the year carry that "
